@@ -478,6 +478,7 @@ func checkC06(c *Ctx) {
 	c.ruleExhaustion("C06-R7")
 	c.ruleSearchPostcondition("C06-R8")
 	c.ruleAppendAliasing("C06-R9", "wasp")
+	c.ruleNoLostUpdateOnCopy("C06-R10")
 }
 
 func checkC07(c *Ctx) {
